@@ -503,6 +503,34 @@ func pickEngine(c *Ctx) {
 		}
 		gzsrv.Close()
 	}
+	// a content-addressed http warehouse behind a server that matches request paths exactly (an object store: no path
+	// cleaning, no redirects): the base address with and without a trailing slash names the same warehouse
+	{
+		exact := "/wares/" + pickHash[0:3] + "/" + pickHash[3:6] + "/" + pickHash
+		xsrv := httptest.NewServer(http.HandlerFunc(func(w http.ResponseWriter, r *http.Request) {
+			if r.URL.EscapedPath() != exact {
+				w.WriteHeader(404)
+				return
+			}
+			w.Write([]byte("W-exact"))
+		}))
+		base := "ca+http" + strings.TrimPrefix(xsrv.URL, "http")
+		for k, l := range [][]api.WarehouseLocation{
+			{api.WarehouseLocation(base + "/wares")},
+			{api.WarehouseLocation(base + "/wares/")},
+			{api.WarehouseLocation(env.deadURL + "/x"), api.WarehouseLocation(base + "/wares/")},
+			{api.WarehouseLocation(base + "/wares//")},
+		} {
+			op := fmt.Sprintf("pick-exact-path %d", k)
+			c.EmitR(op, "skip", "skip")
+			r := pickDirect(api.WareID{Type: "tar", Hash: pickHash}, l)
+			c.H("exact-path:" + r)
+			if !strings.HasPrefix(r, "opened") {
+				c.PropFail("pick-holder-not-served", fmt.Sprintf("the holder %s (a server that matches paths exactly) is not served: %s", l[len(l)-1], r), op)
+			}
+		}
+		xsrv.Close()
+	}
 	// a port no TCP endpoint can have is a malformed address, not a warehouse that happens to be down
 	{
 		dm := filepath.Join(env.root, "two-modes", "wh")
